@@ -22,19 +22,24 @@ EXTRA = {
  "X03": dict(
   title="the sort orders of organisms, species and experiment records are strict weak orders and every sort / champion / maximum built on them gives what the order says",
   text="The six Less relations (genetics.Organisms: fitness then highestFitness; byOrganismOrigFitness: original fitness of the first organism, the older species is less on ties; ByOrganismFitness: maximum computed by ComputeMaxAndAvgFitness; experiment.Generations / Trials / Experiments: most recent evaluation time then id), findChampion, FindChampion and ComputeMaxAndAvgFitness are specified as relations / folds over integers. TLC checks on every list in scope: irreflexive, asymmetric, transitive, incomparability transitive (strict weak order: what sort.Sort needs), the descending / ascending arrangement is sorted and a permutation, only equal elements are incomparable for the three lexicographic orders, the champion is maximal, the coded maximum (running maximum starting at 0) is the true maximum on non-negative fitness, FindChampion as coded (running best starting at -1) is the first maximal organism when every fitness exceeds -1, n*max >= sum. The replayer builds real Organisms / Species / Generations / Trials / Experiments, compares Less with the specification's matrix for every ordered pair, Swap, sorts fresh copies with sort.Sort(sort.Reverse(x)) (what every call site does), sort.Sort(x) and sort.Stable(sort.Reverse(x)) and compares the key sequence and the permutation property (pointer identity), runs the real findChampion (champion key, organisms left best-first), FindChampion (pointer of the expected position, no reordering), ComputeMaxAndAvgFitness (exact), RecentEpochEvalTime and MostRecentTrialEvalTime.",
-  note="Exhaustive within: organism lists up to 4 over fitness {0,1,2} x highestFitness {0,2} (quick) / {0,1,3} x {0,1,3} (thorough); species lists up to 3 (4) over original fitness x age {1,2,3}, each species built with a second organism whose values point the other way (only the first organism may count); species-maximum lists of up to 3 species with 0..2 organisms; stamped lists up to 3 (4) over time {zero,1,2} x id {0,1,2} replayed as Generations, as Trials (time = maximum over their generations) and as Experiments (maximum over trials, the most recent trial not the last). MC_Orders_negative adds fitness {-2,-1,0,1}: the verdict there is against the functions AS CODED; the two places where the code departs from the plain definition are recorded as OBSERVATIONS (coverage.orders.observations), not violations: ComputeMaxAndAvgFitness reports 0 as the maximum of a non-empty species whose organisms all have negative fitness, and FindChampion returns nil when every fitness is <= -1 (adjustFitness documents `Do not allow negative fitness`, so negative fitness is outside the documented domain of these functions). Not covered: NaN fitness (Less is not a strict weak order with NaN), species without organisms for byOrganismOrigFitness / findChampion (both index Organisms[0]: precondition). Needs the export shims of /repo/neat/genetics/verif_grow_on.go (build tag verif). Trusted: TLC, the standard library's sort given a strict weak order.",
+  note="Exhaustive within: organism lists up to 4 over fitness {0,1,2} x highestFitness {0,2} (quick) / up to 5 over {0,1,3} x {0,1,3} (thorough); species lists up to 3 (4) over original fitness x age {1,2,3}, each species built with a second organism whose values point the other way (only the first organism may count); species-maximum lists of up to 3 species with 0..2 organisms; stamped lists up to 3 (4) over time {zero,1,2} x id {0,1,2} replayed as Generations, as Trials (time = maximum over their generations) and as Experiments (maximum over trials, the most recent trial not the last). MC_Orders_negative adds fitness {-2,-1,0,1}: the verdict there is against the functions AS CODED; the two places where the code departs from the plain definition are recorded as OBSERVATIONS (coverage.orders.observations), not violations: ComputeMaxAndAvgFitness reports 0 as the maximum of a non-empty species whose organisms all have negative fitness, and FindChampion returns nil when every fitness is <= -1 (adjustFitness documents `Do not allow negative fitness`, so negative fitness is outside the documented domain of these functions). Not covered: NaN fitness (Less is not a strict weak order with NaN), species without organisms for byOrganismOrigFitness / findChampion (both index Organisms[0]: precondition). Needs the export shims of /repo/neat/genetics/verif_grow_on.go (build tag verif). Trusted: TLC, the standard library's sort given a strict weak order.",
   technique=B2),
  "X04": dict(
   title="population statistics, champion selection and the remaining trial / experiment accessors equal their definitions",
   text="Generation.FillPopulationStatistics is specified as the loop of the code (per species: sort best first under the Organisms order, take the first organism's fitness and genome complexity and the species age; champion = best organism of the first species whose best fitness is strictly greater than the running maximum; a generation that is already solved keeps its champion) next to its definition (first species holding an organism of maximal fitness); Generation.Average as exact sums over the species; Trial.AvgEpochDuration / Experiment.AvgTrialDuration / AvgEpochDuration with Go's truncating integer division and the EmptyDuration (-1) convention, including a trial without generations contributing -1 to the experiment's average as coded; Trial.BestOrganism and Experiment.BestOrganism for all champions and for solvers only (maximal key under the Organisms order, the set of generations / trials that may be reported, Flag = reported trial); champion accessors for generations without champion or species (0 / MaxInt); the remembered winner generation of WinnerStatistics; the exact ingredients of Experiment.EfficiencyScore. TLC checks: loop = definition, the champion is maximal, per-species fitness is the species maximum, every species is left best first, restricting to solvers cannot improve the best, found-flags, division brackets. Every case is built from real organisms (genome complexity tied to the organism key so that picking another organism shows) and every accessor compared.",
   note="Exhaustive within: populations of up to 2 (thorough 3) species of 1..2 organisms over fitness {-1,0,2} x highestFitness {0,1}, solved flag both ways; trials of up to 2 (3) generations over solved x 4 champion keys x a bit that sets duration and species age (0 = champion without species); experiments of up to 2 trials x 2 generations (thorough 3 x 1). Integer-valued fields are compared exactly, means with 1e-12; the final float formula of EfficiencyScore (log) is composed by the replayer from the specification's exact ingredients and compared with 1e-9 relative tolerance, for MaxFitnessScore 0 and 4. C19 already covers the other accessors; X03 covers RecentEpochEvalTime / MostRecentTrialEvalTime. OBSERVATIONS recorded in coverage.popstats.observations, not violations: (1) MC_PopStats_nochamp puts generations WITHOUT a champion in scope: Trial.BestOrganism / Experiment.BestOrganism sort the champions without a nil check and panic (nil dereference in Organisms.Less; a single nil champion is returned as (nil, true)), EfficiencyScore panics when the winner generation has no champion - while ChampionsFitness / ChampionSpeciesAges / ChampionsComplexities / ChampionComplexity tolerate a nil champion; (2) EfficiencyScore is 0 for every experiment with a single trial (the means are only taken when len(Trials) > 1) and NaN (0/0) when several trials exist and none is solved; (3) genetics.Population.MeanFitness / Variance / StandardDev are never assigned anywhere in the library (dead fields: nothing to check). The running maximum of the champion selection starts at float64(math.MinInt64): fitness below -9.2e18 is outside the scope. Species without organisms are outside the scope (FillPopulationStatistics indexes Organisms[0]). Trusted: TLC, the replayer's construction of organisms / generations.",
   technique=B2),
+ "X05": dict(
+  title="random start genomes have the documented shape and are exactly what the drawn connection matrix says",
+  text="genetics.newGenomeRand (behind NewPopulationRandom) is specified as its double loop over the connection matrix next to a per-cell definition: node layout (sensors 1..in with the last one the bias, n hidden nodes, outputs at the end of the id range in + maxHidden + 1 .. total), a gene for cell c (link row -> col, col = c div total + 1, row = c mod total + 1) iff its bit is set, col is not a sensor, both ends exist and the link is forward or recurrence is allowed; innovation number = c, recurrent flag iff col <= row, genes in cell order. TLC checks for every parameter set in scope and every matrix (all 2^(total^2) matrices for total <= 3, quick / <= 4, thorough; a family of matrices above): loop = definition, node roles and ascending unique ids, no link into a sensor, both ends are nodes of the genome, recurrent genes only when allowed, innovation numbers ascending and equal to the matrix position, forward-only genomes acyclic by id order. The replayer learns the draws (as X01): it seeds the source, reads the stream as the specification says the construction consumes it (one uniform per cell, one roulette draw per hidden node when there are two activators, per created gene an integer for the sign and a uniform for the magnitude), seeds again and calls the real constructor; nodes (id, role, activation, trait), genes (innovation, ends, recurrence, weight, mutation number = weight, enabled, trait, wiring to the genome's own node objects), the trait, Genome.verify() (passes iff the genome has a gene) and the next value of the stream are compared. NewPopulationRandom: per genome one Intn(maxHidden) then the genome's draws; organisms, ids, generation, counters (next node id total + 1, next innovation total^2 + 1) and the species partition are compared.",
+  note="The matrix cannot be forced: cases are parameter sets with the TLC-generated node list and per-cell table (eligible, gene), and the expected genome is the table filtered by the bits the code draws (40 seeds x link probability {0, .25, .5, .75, 1} x {one, two activators} per parameter set; 6 seeded populations of 6 per (in, out, maxHidden, recurrent)). Exhaustive on the model within in <= 2, out <= 2, maxHidden <= 2 (quick) / in <= 3, maxHidden <= 3 (thorough), n <= maxHidden; sampled on the code. OBSERVATIONS (coverage.randgenome.observations, not violations): NewPopulationRandom panics for maxHidden = 0 (rand.Intn(0)) and never creates maxHidden hidden nodes (n = Intn(maxHidden) < maxHidden); with a low link probability genomes come out without any gene, the population is built all the same, and Genome.verify() rejects such genomes. Trusted: TLC, math/rand determinism under rand.Seed, X01 for the roulette (two equally likely activators).",
+  technique=B2),
 }
 
 
-def _run(ctx, replay, module, cfgs, command, cases_name, kind, extra_args=None, timeout=1500):
+def _run(ctx, replay, module, cfgs, command, cases_name, kind, extra_args=None, timeout=1500, regen_on_replay=False):
     cases_file = ctx.path(cases_name)
-    if replay is not None:
+    if replay is not None and not regen_on_replay:
         write_lines(cases_file, replay_cases(replay))
     else:
         files = []
@@ -131,3 +136,20 @@ def x04(ctx, replay):
                        "EfficiencyScore: final float formula composed by the replayer, 1e-9 relative tolerance"]
     _run(ctx, replay, "MC_PopStats", ["MC_PopStats_thorough.cfg" if thorough else "MC_PopStats.cfg", "MC_PopStats_nochamp.cfg"],
          "replay-popstats", "popstats_cases.ndjson", "popstats", timeout=2400)
+
+
+# ------------------------------------------------------------------------------------------------ X05
+@pipeline("X05")
+def x05(ctx, replay):
+    thorough = ctx.tier == "thorough" or (replay is not None and replay.get("tier") == "thorough")
+    ctx.rule = ("MC_RandGenome: every parameter set (in, out, maxHidden, n, recurrent) in scope with its node list and per-cell "
+                "table; TLC checks the shape laws on every matrix (small totals) / a family of matrices; the replayer builds "
+                "genomes with the real newGenomeRand for 40 seeds x 5 link probabilities x 2 activator lists per parameter "
+                "set and populations with NewPopulationRandom, learning the drawn bits from the random stream; "
+                "non-trivial = parameter set with hidden nodes for which set bits were skipped (ineligible cells) and, when "
+                "recurrence is allowed, a recurrent gene was created")
+    ctx.assumptions = ["n <= maxHidden, in >= 1, out >= 1", "rand.Seed re-seeds the global source deterministically",
+                       "the matrix is sampled through seeds on the real code, exhaustive only on the model"]
+    _run(ctx, replay, "MC_RandGenome", ["MC_RandGenome_thorough.cfg" if thorough else "MC_RandGenome.cfg"],
+         "replay-randgenome", "randgenome_cases.ndjson", "randgenome", extra_args=["-seeds", "80" if thorough else "40"], timeout=2400,
+         regen_on_replay=True)      # the cases are parameter tables and populations need all of them: a replay re-runs the tier
